@@ -7,14 +7,112 @@ package main
 import (
 	"fmt"
 	"go/ast"
+	"go/constant"
+	"go/parser"
+	"go/printer"
+	"go/token"
+	"go/types"
+	"os"
+	"path/filepath"
 	"strings"
 
 	"ssvharness/internal/gen"
 )
 
+// pkg is a light-weight view of one package directory: parsed non-test files, type-checked with
+// a stub importer (imported packages are empty), which is enough to evaluate the package's own
+// integer constants (all the ones used here are built from literals and local constants) and to
+// inspect function bodies. A full source-importer type-check of ss2022's dependency closure takes
+// minutes on a loaded machine; none of it is needed for these facts. A constant that cannot be
+// evaluated this way is an error (GEN-BROKEN), never a guess.
+type pkg struct {
+	dir   string
+	fset  *token.FileSet
+	files []*ast.File
+	types *types.Package
+}
+
+type stubImporter struct{}
+
+func (stubImporter) Import(path string) (*types.Package, error) {
+	p := types.NewPackage(path, filepath.Base(path))
+	p.MarkComplete()
+	return p, nil
+}
+
+func load(repo, dir string) (*pkg, error) {
+	fset := token.NewFileSet()
+	ents, err := os.ReadDir(filepath.Join(repo, dir))
+	if err != nil {
+		return nil, err
+	}
+	p := &pkg{dir: dir, fset: fset}
+	for _, e := range ents {
+		n := e.Name()
+		if !strings.HasSuffix(n, ".go") || strings.HasSuffix(n, "_test.go") {
+			continue
+		}
+		f, err := parser.ParseFile(fset, filepath.Join(repo, dir, n), nil, parser.SkipObjectResolution)
+		if err != nil {
+			return nil, err
+		}
+		p.files = append(p.files, f)
+	}
+	conf := types.Config{Importer: stubImporter{}, Error: func(error) {}}
+	p.types, _ = conf.Check("github.com/database64128/shadowsocks-go/"+dir, fset, p.files, nil)
+	if p.types == nil {
+		return nil, fmt.Errorf("type-check of %s failed", dir)
+	}
+	return p, nil
+}
+
+func (p *pkg) constInt(name string) (string, error) {
+	c, ok := p.types.Scope().Lookup(name).(*types.Const)
+	if !ok || c.Val().Kind() == constant.Unknown {
+		return "", fmt.Errorf("%s.%s: constant not found or not evaluable", p.dir, name)
+	}
+	v := constant.ToInt(c.Val())
+	if v.Kind() != constant.Int {
+		return "", fmt.Errorf("%s.%s: not an integer constant (%s)", p.dir, name, c.Val())
+	}
+	return v.ExactString(), nil
+}
+
+func (p *pkg) consts(l *gen.Lean, names ...string) error {
+	for _, n := range names {
+		v, err := p.constInt(n)
+		if err != nil {
+			return err
+		}
+		l.NatDef(n, v, p.dir+"."+n)
+	}
+	return nil
+}
+
+func (p *pkg) Func(recv, name string) (*ast.FuncDecl, error) {
+	for _, f := range p.files {
+		for _, d := range f.Decls {
+			fd, ok := d.(*ast.FuncDecl)
+			if !ok || fd.Name.Name != name || fd.Recv == nil || len(fd.Recv.List) != 1 {
+				continue
+			}
+			if strings.TrimPrefix(p.Src(fd.Recv.List[0].Type), "*") == strings.TrimPrefix(recv, "*") {
+				return fd, nil
+			}
+		}
+	}
+	return nil, fmt.Errorf("%s: method %s.%s not found", p.dir, recv, name)
+}
+
+func (p *pkg) Src(n ast.Node) string {
+	var sb strings.Builder
+	printer.Fprint(&sb, p.fset, n)
+	return strings.Join(strings.Fields(sb.String()), " ")
+}
+
 // stmtsBeforeLoop returns the source text of the statements of fd's body that precede its single
 // top-level `for` statement. Any other shape is an error (the extractor does not guess).
-func stmtsBeforeLoop(p *gen.Pkg, fd *ast.FuncDecl) ([]string, error) {
+func stmtsBeforeLoop(p *pkg, fd *ast.FuncDecl) ([]string, error) {
 	var pre []string
 	loops := 0
 	for _, st := range fd.Body.List {
@@ -38,7 +136,7 @@ func stmtsBeforeLoop(p *gen.Pkg, fd *ast.FuncDecl) ([]string, error) {
 // destination (call `call`) before the loop. Recognised prologues: plain assignments / declarations
 // (no flush) and one `if` statement over c.readBuf[c.readStart:] containing the write call and
 // advancing c.readStart (flush). Everything else is an unrecognised shape.
-func flushFact(p *gen.Pkg, fd *ast.FuncDecl, call string) (bool, error) {
+func flushFact(p *pkg, fd *ast.FuncDecl, call string) (bool, error) {
 	pre, err := stmtsBeforeLoop(p, fd)
 	if err != nil {
 		return false, err
@@ -67,7 +165,7 @@ func flushFact(p *gen.Pkg, fd *ast.FuncDecl, call string) (bool, error) {
 // unstartedGuard: in (*ShadowStreamClientConn).writeToServerConn, between the first-read block
 // (`if c.ShadowStreamConn.readCipher == nil {...}`) and the final tunnel call there may be a guard
 // `if w...writeCipher == nil { return c.ShadowStreamConn.WriteTo(w) }`.
-func unstartedGuard(p *gen.Pkg, fd *ast.FuncDecl) (bool, error) {
+func unstartedGuard(p *pkg, fd *ast.FuncDecl) (bool, error) {
 	l := fd.Body.List
 	if len(l) < 2 {
 		return false, fmt.Errorf("writeToServerConn: body too short")
@@ -95,20 +193,20 @@ func unstartedGuard(p *gen.Pkg, fd *ast.FuncDecl) (bool, error) {
 
 func main() {
 	gen.Main("C01", func(c *gen.Ctx, l *gen.Lean) error {
-		p, err := c.Load("ss2022")
+		p, err := load(c.Repo, "ss2022")
 		if err != nil {
 			return err
 		}
-		if err := l.Consts(p, "streamMaxPayloadSize", "streamReadMinBufferSize", "streamWriteBufferSize", "tagSize", "nonceSize",
+		if err := p.consts(l, "streamMaxPayloadSize", "streamReadMinBufferSize", "streamWriteBufferSize", "tagSize", "nonceSize",
 			"MaxPaddingLength", "IdentityHeaderLength", "TCPRequestFixedLengthHeaderLength",
 			"HeaderTypeClientStream", "HeaderTypeServerStream", "MaxEpochDiff"); err != nil {
 			return err
 		}
-		s, err := c.Load("socks5")
+		s, err := load(c.Repo, "socks5")
 		if err != nil {
 			return err
 		}
-		if err := l.Consts(s, "MaxAddrLen", "IPv4AddrLen", "IPv6AddrLen", "AtypIPv4", "AtypDomainName", "AtypIPv6"); err != nil {
+		if err := s.consts(l, "MaxAddrLen", "IPv4AddrLen", "IPv6AddrLen", "AtypIPv4", "AtypDomainName", "AtypIPv6"); err != nil {
 			return err
 		}
 		wt, err := p.Func("*ShadowStreamConn", "WriteTo")
